@@ -1,5 +1,6 @@
-(* The two known defects as theorems about the faithful model: the fork/SIGCHLD race (timeout = 0) and a boot
-   failure reaped while halt() runs. *)
+(* The fork/SIGCHLD race (timeout = 0) as a theorem about the faithful model, and the boot failure reaped while halt()
+   runs: impossible on a tree whose reap_workers tests `not self._stopping` (reap_guards_halting = true), a crash of the
+   master on a tree without that test (both readings; the constant generated from the tree selects). *)
 From Coq Require Import List ZArith Bool Lia.
 From GV Require Import Gen.GenArbiter Model.Arbiter Proof.ArbiterBase Proof.ArbiterInv Proof.ArbiterC03 Proof.ArbiterConv.
 Import ListNotations.
@@ -106,17 +107,21 @@ Proof.
 Qed.
 
 (* D22: two workers fail to boot at the same moment.  The handler raises HaltServer for the first and stops
-   reaping; the second is reaped by the next SIGCHLD while halt() -> stop() runs: the exception leaves run(). *)
+   reaping; the second is reaped by the next SIGCHLD while halt() -> stop() runs.  Without the guard the exception
+   leaves run(); with it the second failure is an ordinary death and the master exits with the status of the first. *)
 Definition d22_schedule : list label :=
   [Master; Master; Master; Master; Master; Master; Master; Master; Master;   (* both workers spawned *)
    Exit 100 768; Exit 101 768; Chld;      (* both exit with status 3; HaltServer for 100 -> halt(3) begins *)
    Master;                                 (* stop(): kill_workers snapshot *)
-   Chld].                                  (* the second zombie is reaped inside halt(): HaltServer again *)
+   Chld].                                  (* the second zombie is reaped inside halt() *)
 
-Theorem boot_failure_exit_status_refuted :
-  cur (run (init 2 30 30 0 0) d22_schedule) = PCrashed /\
-  forks (run (init 2 30 30 0 0) d22_schedule) = 2.
-Proof. vm_compute. auto. Qed.
+Lemma d22_outcome :
+  let s := run (init 2 30 30 0 0) d22_schedule in
+  (forks s = 2) /\
+  (if reap_guards_halting
+   then kids s = [] /\ cur (run s (repeat Master 4)) = PExited worker_boot_error
+   else cur s = PCrashed).
+Proof. vm_compute. repeat split. Qed.
 
 (* ... and that is the only way to get there: a HaltServer raised by the handler inside the final stop() *)
 Definition reaps_boot_failure (s : st) : Prop := exists s1 code, reap (S (length (kids s))) s = (s1, Some code).
@@ -176,14 +181,15 @@ Proof.
 Qed.
 
 Theorem crash_only_by_halt_reentry : forall s l, cur s <> PCrashed -> cur (step s l) = PCrashed ->
-  l = Chld /\ in_final_stop (cur s) = true /\ reaps_boot_failure s.
+  l = Chld /\ in_final_stop (cur s) = true /\ reaps_boot_failure s /\ reap_guards_halting = false.
 Proof.
   intros s l NC C. destruct l; unfold step in C.
   - exfalso. eapply master_never_crashes; eauto.
   - split; auto. unfold chld in C. destruct (master_gone (cur s)) eqn:G. contradiction.
     destruct (reap (S (length (kids s))) s) as [s1 [code|]] eqn:R.
     + destruct (reap_forks_cur _ _ _ _ R) as [_ E]. rewrite E in C. destruct (in_final_stop (cur s)) eqn:F.
-      * split; auto. exists s1, code. auto.
+      * split; auto. split. { exists s1, code. auto. }
+        exact (raises_in_stop s (reap_some_raises _ _ _ _ R) (final_in_stop _ F)).
       * exfalso. eapply nc_enter_stop; eauto.
     + destruct (reap_forks_cur _ _ _ _ R) as [_ E]. simpl in C. rewrite E in C. contradiction.
   - simpl in C. contradiction.
@@ -204,4 +210,21 @@ Proof.
     destruct (_ && _); try contradiction. cbn [cur set_workers] in C.
     destruct (cur s) eqn:PC; cbn [cur set_workers] in C; try (rewrite PC in C); try discriminate; try contradiction.
     destruct (p0 =? p); cbn [cur set_pc set_workers] in C; try (rewrite PC in C); discriminate.
+Qed.
+
+(* with the guard no exception ever leaves run(): for every schedule *)
+Theorem never_crashes : reap_guards_halting = true -> forall ls s, cur s <> PCrashed -> cur (run s ls) <> PCrashed.
+Proof.
+  intros G. induction ls as [|l t IH]; simpl; intros s NC; auto.
+  apply IH. intro C. destruct (crash_only_by_halt_reentry s l NC C) as [_ [_ [_ N]]]. congruence.
+Qed.
+
+(* the statement of Props/C03.v: the reading that describes the tree under test *)
+Theorem halt_reentry :
+  if reap_guards_halting
+  then forall ls s, cur s <> PCrashed -> cur (run s ls) <> PCrashed
+  else cur (run (init 2 30 30 0 0) d22_schedule) = PCrashed /\ forks (run (init 2 30 30 0 0) d22_schedule) = 2.
+Proof.
+  pose proof never_crashes as A. pose proof d22_outcome as B. cbv zeta in B.
+  destruct reap_guards_halting; [exact (A eq_refl)|]. destruct B as [B1 B2]. split; assumption.
 Qed.
